@@ -348,7 +348,10 @@ class Engine:
                 if future is None or future.done():
                     rec.result = 'skipped'
                 elif action.get('how', 'value') == 'value':
-                    rec.result = future.set_result(action.get('v'))
+                    value = action.get('v')
+                    if value == '__uncopyable__':
+                        value = programs.UncopyableValue()  # e.g. a handle to a live resource: can be neither copied nor pickled
+                    rec.result = future.set_result(value)
                 elif action['how'] == 'exc':
                     exc = programs.ProgramError(f"future {action['fut']} failed")
                     self.world.program_errors.append(exc)
